@@ -49,7 +49,7 @@ fn mutate(rng: &mut Rng, mut b: Vec<u8>) -> Vec<u8> {
 }
 
 /// feed peer bytes as successive recv() calls; stops when a close is requested (contract)
-fn feed<R: role::RoleType>(run: &mut Runner<R>, rng: &mut Rng, bytes: Vec<u8>, g: &mut Ghost, st: &mut CaseStats, abuse: bool) {
+fn feed<R: HRole>(run: &mut Runner<R>, rng: &mut Rng, bytes: Vec<u8>, g: &mut Ghost, st: &mut CaseStats, abuse: bool) {
     let mut chunks: Vec<Vec<u8>> = Vec::new();
     if bytes.len() >= 2 && rng.chance(1, 4) {
         let k = rng.range(1, bytes.len() as u64 - 1) as usize;
@@ -78,7 +78,7 @@ fn feed<R: role::RoleType>(run: &mut Runner<R>, rng: &mut Rng, bytes: Vec<u8>, g
 }
 
 /// update the application-side ghost from the events of the last call
-fn observe<R: role::RoleType>(run: &Runner<R>, g: &mut Ghost) {
+fn observe<R: HRole>(run: &Runner<R>, g: &mut Ghost) {
     for e in &run.last_events {
         if let GenericEvent::NotifyPacketReceived(p) = e {
             let w = view(p);
@@ -99,7 +99,7 @@ fn observe<R: role::RoleType>(run: &Runner<R>, g: &mut Ghost) {
 }
 
 /// contract: an id handed to a send must be in use and not owned by an open exchange
-fn app_may_use<R: role::RoleType>(run: &Runner<R>, g: &Ghost, id: u64) -> bool {
+fn app_may_use<R: HRole>(run: &Runner<R>, g: &Ghost, id: u64) -> bool {
     let s = run.conn.as_ref().unwrap().verif_state();
     let used = id != 0 && !s.pid_free.iter().any(|(l, h)| *l <= id && id <= *h);
     let owned = s.pid_puback.contains(&id) || s.pid_pubrec.contains(&id) || s.pid_pubcomp.contains(&id)
@@ -173,7 +173,7 @@ fn app_held_ids(s: &mqtt::connection::core::VerifState, store_ids: &[u64]) -> Ve
 
 /// the switch of a paired case: (C16: export,) transport closed, application-held ids released.
 /// Returns the snapshot a restored object is given.
-fn pair_switch<R: role::RoleType>(run: &mut Runner<R>, pair: u64, st: &mut CaseStats) -> Snapshot {
+fn pair_switch<R: HRole>(run: &mut Runner<R>, pair: u64, st: &mut CaseStats) -> Snapshot {
     let export = |run: &Runner<R>| -> Snapshot {
         let c = run.conn.as_ref().unwrap();
         let mut q: Vec<u64> = c.get_qos2_publish_handled().iter().map(|x| *x as u64).collect();
@@ -198,7 +198,7 @@ fn pair_switch<R: role::RoleType>(run: &mut Runner<R>, pair: u64, st: &mut CaseS
 }
 
 /// build the second object of a paired case from the first one's log and run the common script
-fn pair_second<R: role::RoleType>(a: &Runner<R>, version: Version, role_n: u64, ver: u64, pair: u64, k_a: usize, snap: &Snapshot, st: &mut CaseStats) -> Runner<R> {
+fn pair_second<R: HRole>(a: &Runner<R>, version: Version, role_n: u64, ver: u64, pair: u64, k_a: usize, snap: &Snapshot, st: &mut CaseStats) -> Runner<R> {
     let mut b = Runner::<R>::new(version, role_n, ver);
     b.out.insert(0, a.out[0]);
     for o in &a.log[..k_a.min(a.log.len())] {
@@ -216,7 +216,7 @@ fn pair_second<R: role::RoleType>(a: &Runner<R>, version: Version, role_n: u64, 
     b
 }
 
-fn pair_line<R: role::RoleType>(a: &Runner<R>, b: &Runner<R>, pair: u64, k_a: usize, k_b: usize) -> String {
+fn pair_line<R: HRole>(a: &Runner<R>, b: &Runner<R>, pair: u64, k_a: usize, k_b: usize) -> String {
     let mut s = String::with_capacity((a.out.len() + b.out.len()) * 4 + 32);
     s.push_str(&format!("pair {} {} {} {}", pair, k_a, k_b, a.out.len()));
     for x in a.out.iter().chain(b.out.iter()) {
@@ -228,7 +228,7 @@ fn pair_line<R: role::RoleType>(a: &Runner<R>, b: &Runner<R>, pair: u64, k_a: us
 
 /// replay of a paired case: tokens as for replay_case, plus the kind and the switch index
 pub fn replay_pair(pair: u64, k_a: usize, hdr: &[u64], ops: &[Op]) -> String {
-    fn go<R: role::RoleType>(pair: u64, k_a: usize, hdr: &[u64], ops: &[Op]) -> String {
+    fn go<R: HRole>(pair: u64, k_a: usize, hdr: &[u64], ops: &[Op]) -> String {
         let version = match hdr[4] {
             4 => Version::V3_1_1,
             5 => Version::V5_0,
@@ -288,7 +288,7 @@ pub fn replay_pair(pair: u64, k_a: usize, hdr: &[u64], ops: &[Op]) -> String {
 
 /// replay: header (contract role idmax idw version) and explicit ops
 pub fn replay_case(hdr: &[u64], ops: &[Op]) -> String {
-    fn go<R: role::RoleType>(hdr: &[u64], ops: &[Op]) -> String {
+    fn go<R: HRole>(hdr: &[u64], ops: &[Op]) -> String {
         let version = match hdr[4] {
             4 => Version::V3_1_1,
             5 => Version::V5_0,
@@ -309,7 +309,7 @@ pub fn replay_case(hdr: &[u64], ops: &[Op]) -> String {
     }
 }
 
-fn drive<R: role::RoleType>(rng: &mut Rng, role_n: u64, ver: u64, bias: u64, abuse: bool, pair: u64, stats: &mut CaseStats) -> (String, u64) {
+fn drive<R: HRole>(rng: &mut Rng, role_n: u64, ver: u64, bias: u64, abuse: bool, pair: u64, stats: &mut CaseStats) -> (String, u64) {
     let version = match ver {
         4 => Version::V3_1_1,
         5 => Version::V5_0,
@@ -685,7 +685,7 @@ fn drive<R: role::RoleType>(rng: &mut Rng, role_n: u64, ver: u64, bias: u64, abu
 }
 
 #[allow(clippy::too_many_arguments)]
-fn local_send<R: role::RoleType>(
+fn local_send<R: HRole>(
     run: &mut Runner<R>, rng: &mut Rng, g: &mut Ghost, s: &mqtt::connection::core::VerifState, wv: u64, bias: u64,
     st: &mut CaseStats, small_ids: &[u64; 5],
 ) {
@@ -766,7 +766,7 @@ fn local_send<R: role::RoleType>(
             if wv == 5 && rng.chance(1, 25) {
                 run.apply(&Op::Regulate(p.clone()), st);
             }
-            run.apply(&Op::Send(p), st);
+            if rng.chance(1, 5) { run.apply(&Op::CheckedSend(p), st); } else { run.apply(&Op::Send(p), st); }
         } else if qos > 0 {
             g.held.push(id);
         }
@@ -807,7 +807,7 @@ fn local_send<R: role::RoleType>(
 }
 
 #[allow(clippy::too_many_arguments)]
-fn peer_traffic<R: role::RoleType>(
+fn peer_traffic<R: HRole>(
     run: &mut Runner<R>, rng: &mut Rng, g: &mut Ghost, s: &mqtt::connection::core::VerifState, wv: u64, bias: u64,
     st: &mut CaseStats, abuse: bool, small_ids: &[u64; 5],
 ) {
@@ -922,7 +922,7 @@ fn kind_packet(rng: &mut Rng, pver: u64, ty: u64, pid: u64) -> Option<Packet> {
     }
 }
 
-fn matrix_cell<R: role::RoleType>(role_n: u64, cver: u64, status: u64, as_client: bool, persistent: bool, offline: bool, pver: u64, ty: u64, st: &mut CaseStats) -> Option<String> {
+fn matrix_cell<R: HRole>(role_n: u64, cver: u64, status: u64, as_client: bool, persistent: bool, offline: bool, pver: u64, ty: u64, checked: bool, st: &mut CaseStats) -> Option<String> {
     let version = match cver {
         4 => Version::V3_1_1,
         5 => Version::V5_0,
@@ -973,7 +973,7 @@ fn matrix_cell<R: role::RoleType>(role_n: u64, cver: u64, status: u64, as_client
         pid = run.last_acquired.take().unwrap_or(1);
     }
     let p = kind_packet(&mut rng, pver, ty, pid)?;
-    run.apply(&Op::Send(p), st);
+    run.apply(&if checked { Op::CheckedSend(p) } else { Op::Send(p) }, st);
     Some(run.line())
 }
 
@@ -1000,17 +1000,20 @@ pub fn gen_matrix(out: &mut Vec<String>, st: &mut CaseStats) -> (u64, u64) {
                                 if pver == 4 && ty == 15 {
                                     continue;
                                 }
-                                let line = match role_n {
-                                    0 => matrix_cell::<role::Client>(role_n, cver, status, *as_client, persistent, offline, pver, ty, st),
-                                    1 => matrix_cell::<role::Server>(role_n, cver, status, *as_client, persistent, offline, pver, ty, st),
-                                    _ => matrix_cell::<role::Any>(role_n, cver, status, *as_client, persistent, offline, pver, ty, st),
-                                };
-                                match line {
-                                    Some(l) => {
-                                        cells += 1;
-                                        out.push(l)
+                                // through send() and through the compile-time-checked checked_send()
+                                for checked in [false, true] {
+                                    let line = match role_n {
+                                        0 => matrix_cell::<role::Client>(role_n, cver, status, *as_client, persistent, offline, pver, ty, checked, st),
+                                        1 => matrix_cell::<role::Server>(role_n, cver, status, *as_client, persistent, offline, pver, ty, checked, st),
+                                        _ => matrix_cell::<role::Any>(role_n, cver, status, *as_client, persistent, offline, pver, ty, checked, st),
+                                    };
+                                    match line {
+                                        Some(l) => {
+                                            cells += 1;
+                                            out.push(l)
+                                        }
+                                        None => unreachable += 1,
                                     }
-                                    None => unreachable += 1,
                                 }
                             }
                         }
@@ -1023,7 +1026,7 @@ pub fn gen_matrix(out: &mut Vec<String>, st: &mut CaseStats) -> (u64, u64) {
 }
 
 // exhaustive receive-gating matrix (C17): role x version x status x 16 type nibbles
-fn recv_cell<R: role::RoleType>(role_n: u64, cver: u64, status: u64, as_client: bool, nib: u64, level: u64, st: &mut CaseStats) -> Option<String> {
+fn recv_cell<R: HRole>(role_n: u64, cver: u64, status: u64, as_client: bool, nib: u64, level: u64, st: &mut CaseStats) -> Option<String> {
     let version = match cver {
         4 => Version::V3_1_1,
         5 => Version::V5_0,
